@@ -84,30 +84,44 @@ class World:
         self.warm = {}
 
     def warm_caches(self, artifacts):
-        """GOCACHE+GARBLE_CACHE after a successful build (with -debugdir if artifacts != none)."""
+        """GOCACHE+GARBLE_CACHE after successful builds: "none" = built and tested without -debugdir;
+        "all" = additionally built and tested with -debugdir (artifacts of every package cached);
+        "partial" = "all" minus the artifacts of one package."""
         if artifacts in self.warm:
             return self.warm[artifacts]
         root = self.work / ("warm-" + artifacts)
         src = write_proto(root / "src")
         (src / "leaf" / "leaf_test.go").write_text(TEST_FILE)
-        sb = Sandbox(root / "sb", template=True)
-        copytree(self.tool, sb.gcache / "tool")
-        dflag = ["-debugdir=" + str(root / "dbg")] if artifacts != "none" else []
-        for args in (dflag + ["build", "-o", str(root / "prog"), "."], dflag + ["test", "./..."]):
-            r = sb.garble(args, cwd=src, timeout=1500)
-            if r.returncode != 0:
-                raise Inconclusive(f"warming build failed ({artifacts}): {r.stderr[-2000:]}")
-        if artifacts == "partial":
-            # drop the artifacts of one package: the smallest debugdir entries are found through a traced rebuild
-            trace = root / "t.ndjson"
-            r = sb.garble(["-debugdir=" + str(root / "dbg2"), "build", "-a", "-o", str(root / "prog"), "."], cwd=src, trace=trace, timeout=1500)
-            keys = [e["key"] for e in read_trace(trace) if e["ev"] == "debugdir-put" and e["pkg"] == "example.com/proto/mid"]
-            if r.returncode != 0 or not keys:
-                raise Inconclusive("could not locate debugdir artifact entries")
-            for k in keys:
-                p = sb.gcache / "build" / k[:2] / (k + "-a")
-                if p.exists():
-                    p.unlink()
+        if artifacts == "none":
+            sb = Sandbox(root / "sb", template=True)
+            copytree(self.tool, sb.gcache / "tool")
+            for args in (["build", "-o", str(root / "prog"), "."], ["test", "./..."]):
+                r = sb.garble(args, cwd=src, timeout=3000)
+                if r.returncode != 0:
+                    raise Inconclusive(f"warming build failed ({artifacts}, {args}): rc={r.returncode} timed_out={r.timed_out} {r.stderr[-2000:]}")
+        else:
+            base = self.warm_caches("none" if artifacts == "all" else "all")
+            sb = Sandbox(root / "sb", gocache=None)
+            rmtree(sb.gocache)
+            copytree(base.gocache, sb.gocache)
+            rmtree(sb.gcache)
+            copytree(base.gcache, sb.gcache)
+            if artifacts == "all":
+                trace = root / "t.ndjson"
+                dflag = "-debugdir=" + str(root / "dbg")
+                for args in ([dflag, "build", "-o", str(root / "prog"), "."], [dflag, "test", "./..."]):
+                    r = sb.garble(args, cwd=src, trace=trace, timeout=3000)
+                    if r.returncode != 0:
+                        raise Inconclusive(f"warming build failed ({artifacts}, {args}): rc={r.returncode} timed_out={r.timed_out} {r.stderr[-2000:]}")
+                self.mid_keys = [e["key"] for e in read_trace(trace) if e["ev"] == "debugdir-put" and e["pkg"] == "example.com/proto/mid"]
+                self.hashes = {(e["pkg"], e["file"]): e["content_sha256"] for e in read_trace(trace) if e["ev"] == "write-source" and "content_sha256" in e}
+                if not self.mid_keys:
+                    raise Inconclusive("could not locate debugdir artifact entries")
+            else:
+                for k in self.mid_keys:
+                    p = sb.gcache / "build" / k[:2] / (k + "-a")
+                    if p.exists():
+                        p.unlink()
         self.warm[artifacts] = sb
         return sb
 
@@ -163,6 +177,50 @@ def concretise_cell(cell, root: Path, src: Path):
     return gflags + [cmd] + args + tail, env, dbgpath
 
 
+def version_gate(chk, work):
+    """Extension of the lifecycle model: goVersionOK (VersionGate.tla) stops a command in the List step.
+    The table is bound with a stub go reporting each toolchain class; the C19 oracle (nothing created or
+    left behind) is evaluated on every row.  Accept/reject drift is MODEL-MISMATCH only."""
+    import c20
+    tw = mkscratch("c19-vg")
+    r = tlc_must_pass("VersionGate", "VersionGate.cfg", workdir=tw, workers=1)
+    chk.add_tlc(r)
+    table = json.loads((tw / "versiongate_table.json").read_text())
+    tool = {"empty": "", "invalid": "devel +abcdef123", "tooOld": "go1.25.9", "ok": "go1.26.2", "tooNew": "go1.27.0"}
+    built = {"invalid": "devel", "older": "go1.26.1", "sameOrNewer": "go1.26.2"}
+    root = work / "vg-stub"
+    c20.make_stub(root)
+    garble = build_garble("verif")
+    drift = []
+    for t, tv in tool.items():
+        for b, bv in built.items():
+            stub = c20.STUB_GO.replace('"GOVERSION": "go1.26.2"', '"GOVERSION": ' + json.dumps(tv))
+            for pth in (root / "bin" / "go", root / "goroot" / "bin" / "go"):
+                pth.write_text(stub)
+            calls = root / "calls.ndjson"
+            if calls.exists():
+                calls.unlink()
+            env = base_env()
+            env.update({"PATH": f"{root}/bin:" + env["PATH"], "VERIF_STUB_ROOT": str(root), "TMPDIR": str(root / "tmp"),
+                        "GARBLE_CACHE": str(root / "gcache"), "HOME": str(root), "GARBLE_TEST_GOVERSION": bv})
+            before = tree_digest(root / "src")
+            r2 = run([garble, "build", "."], cwd=root / "src", env=env, timeout=120)
+            reached_go = any(json.loads(l)[:1] == ["build"] for l in calls.read_text().splitlines()) if calls.exists() else False
+            chk.case(["versiongate", t, b], nontrivial=True)
+            left = [x for x in os.listdir(root / "tmp") if x.startswith("garble-shared")]
+            if left or tree_digest(root / "src") != before:
+                chk.violation({"kind": "tmp-leftover" if left else "source-modified", "cmd": "build", "outcome": "versiongate", "toolchain": t, "built": b},
+                              {"stderr.txt": r2.stderr[-2000:]}, what=f"garble build with toolchain class {t}/{b} left {left} behind or modified the source")
+            exp = table[t][b]
+            if (r2.returncode == 0 and reached_go) != exp["accept"] or (exp["message"] and exp["message"] not in r2.stderr):
+                drift.append({"toolchain": t, "built": b, "rc": r2.returncode, "reached_go": reached_go, "expected": exp, "stderr": r2.stderr[-200:]})
+            else:
+                chk.traces_validated += 1
+    if drift:
+        chk.extra["versiongate_drift"] = drift
+        print(f"MODEL-MISMATCH: property=C19 {len(drift)} rows of VersionGate.tla differ from the real goVersionOK (not a verdict)", flush=True)
+
+
 def main(tier, seed):
     chk = Check("C19", tier, seed)
     chk.rule = ("cell = command x outcome x inherited GARBLE_SHARED x -debugdir pre-state x artifact cache state, enumerated by TLC; "
@@ -182,6 +240,7 @@ def main(tier, seed):
     world = World(work, tool)
     for a in ("none", "all", "partial"):
         world.warm_caches(a)
+    wlock = threading.Lock()
 
     # quick: a stratified sample (every command x outcome x inherited; every dbgpre x artifacts for build; a few for run/test)
     rng = chk.rng
@@ -267,6 +326,24 @@ def main(tier, seed):
                                 missing.append(f"{sub}/{pkg}/{f}")
                 if (dbgpath / "source" / "stale.go").exists():
                     missing.append("stale content of the previous run kept")
+                # contents: the garbled file must be the text that was compiled (digest logged by the write-source
+                # hook, in this run or - when restored from the artifact cache - in the warming run), the source
+                # file must be the original
+                expected = dict(world.hashes)
+                expected.update({(e["pkg"], e["file"]): e["content_sha256"] for e in events if e["ev"] == "write-source" and "content_sha256" in e})
+                wrong = []
+                for pkg, fl in MODULE_PKGS.items():
+                    pdir = src if pkg == "example.com/proto" else src / pkg.replace("example.com/proto/", "")
+                    for f in fl:
+                        g = dbgpath / "garbled" / pkg / f
+                        if g.exists() and (pkg, f) in expected and sha256_file(g) != expected[(pkg, f)]:
+                            wrong.append(f"garbled/{pkg}/{f}")
+                        o = dbgpath / "source" / pkg / f
+                        if o.exists() and sha256_file(o) != sha256_file(pdir / f):
+                            wrong.append(f"source/{pkg}/{f}")
+                if wrong:
+                    chk.violation(dict(witness, kind="debugdir-wrong-content"), dict(files, **{"wrong.json": json.dumps(wrong)}),
+                                  what=f"-debugdir files differ from what was compiled / from the source after {args}: {wrong[:4]}")
                 if missing:
                     chk.violation(dict(witness, kind="debugdir-incomplete"), dict(files, **{"missing.json": json.dumps(missing)}),
                                   what=f"owned -debugdir incomplete after {args}: {missing[:4]}")
@@ -284,6 +361,7 @@ def main(tier, seed):
         rmtree(root)
 
     parallel(run_cell, list(enumerate(cells)), workers=4)
+    version_gate(chk, work)
     mm = chk.extra.get("model_mismatch_cells", [])
     if mm:
         print(f"MODEL-MISMATCH: property=C19 {len(mm)} cells ended differently from Lifecycle.tla's expectation (exit class or forced -a); see evidence", flush=True)
